@@ -873,7 +873,7 @@ class CxxHarness:
             return {"r": "abort", "m": "%s: %s" % (type(e).__name__, e)}
         if raw is None:
             why = self.proc.last_death or ""
-            if why == "timeout":
+            if str(why).startswith("timeout"):
                 return {"r": "timeout"}
             err = getattr(self.proc, "last_stderr", "") or ""
             rc = getattr(self.proc, "last_rc", None)
